@@ -112,13 +112,34 @@ def rule_b(chk: Check, eng: Engine) -> None:
                 if ks:
                     local_keys[n.targets[0].id] = ks
         guard_keys: dict[int, set[str]] = {}
+
+        def implied_keys(t: ast.AST) -> set[str]:
+            """Setting keys whose test is implied by `t` being true (conjuncts yes, disjuncts only if in all)."""
+            if isinstance(t, ast.BoolOp) and isinstance(t.op, ast.And):
+                out: set[str] = set()
+                for v in t.values:
+                    out |= implied_keys(v)
+                return out
+            if isinstance(t, ast.BoolOp) and isinstance(t.op, ast.Or):
+                sets = [implied_keys(v) for v in t.values]
+                return set.intersection(*sets) if sets else set()
+            if isinstance(t, ast.UnaryOp) and isinstance(t.op, ast.Not):
+                return set()
+            ks = _keys_in(t)
+            if isinstance(t, ast.Name):
+                ks |= local_keys.get(t.id, set())
+            return ks
+
         for n in cfg.nodes:
             if n.kind in ("if", "while"):
-                ks = _keys_in(n.ast.test)  # type: ignore[union-attr]
-                for nm in names_in(n.ast.test):  # type: ignore[union-attr]
-                    ks |= local_keys.get(nm, set())
+                ks = implied_keys(n.ast.test)  # type: ignore[union-attr]
                 if ks:
                     guard_keys[n.id] = ks
+                for nm in names_in(n.ast.test):  # type: ignore[union-attr]
+                    used_keys_local = local_keys.get(nm, set())
+                    if used_keys_local:
+                        used_keys.update(used_keys_local)
+                used_keys.update(_keys_in(n.ast.test))  # type: ignore[union-attr]
         for ks in list(guard_keys.values()) + list(local_keys.values()):
             used_keys |= ks
         regions: dict[int, set[int]] = {g: cfg.true_branch_nodes(g) for g in guard_keys}
@@ -366,3 +387,36 @@ def run(chk: Check, eng: Engine) -> None:
     rule_b(chk, eng)
     rule_c(chk, eng)
     rule_d(chk, eng)
+
+
+# ------------------------------------------------------------------ self-test variants
+from ..mutants import M  # noqa: E402
+
+_T = "src/fandango/language/tree.py"
+_R = "src/fandango/language/grammar/nodes/repetition.py"
+_A = "src/fandango/language/grammar/nodes/alternative.py"
+_C = "src/fandango/language/grammar/nodes/concatenation.py"
+_TN = "src/fandango/language/grammar/nodes/terminal.py"
+_N = "src/fandango/language/grammar/nodes/node.py"
+_CMP = "src/fandango/constraints/comparison.py"
+_CX = "src/fandango/evolution/crossover.py"
+MUTANTS = [
+    M("guard-drops-symbol", _T, "            current_path in path_to_replacement\n            and self.symbol == path_to_replacement[current_path].symbol\n            and not self.read_only\n",
+      "            current_path in path_to_replacement\n            and not self.read_only\n", "R01-a"),
+    M("guard-or", _T, "            current_path in path_to_replacement\n            and self.symbol == path_to_replacement[current_path].symbol\n            and not self.read_only\n",
+      "            current_path in path_to_replacement\n            and (self.symbol == path_to_replacement[current_path].symbol\n            or not self.read_only)\n", "R01-a"),
+    M("plus-nop-unguarded", _R, "        if random.random() < self.settings.get(\"plus_should_return_nothing\"):\n            return  # nop, don't add a node", "        if max_nodes <= 0:\n            return  # nop, don't add a node", "R01-b"),
+    M("terminal-repeat-default-on", _N, "    \"terminal_should_repeat\": 0.0,", "    \"terminal_should_repeat\": 0.05,", "R01-b"),
+    M("option-multiple-unguarded", _R, "        if should_return_multiple:\n            repetition = Repetition(", "        if should_return_multiple or max_nodes > 500:\n            repetition = Repetition(", "R01-b"),
+    M("rep-count-from-cap", _R, "        rep_goal = random.randint(self.min, self.max)\n", "        rep_goal = random.randint(self.min, max(self.max, nodes.MAX_REPETITIONS))\n", "R01-c"),
+    M("rep-break-below-min", _R, "                if rep >= self.min and override_iterations_to_perform is None:\n                    break", "                if override_iterations_to_perform is None:\n                    break", "R01-c"),
+    M("alternative-expands-two", _A, "        random.choice(in_range_nodes).fuzz(parent, grammar, max_nodes, in_message)\n", "        random.choice(in_range_nodes).fuzz(parent, grammar, max_nodes, in_message)\n        if max_nodes > 1000:\n            random.choice(in_range_nodes).fuzz(parent, grammar, max_nodes, in_message)\n", "R01-c"),
+    M("concatenation-skips-on-budget", _C, "            if node.distance_to_completion >= max_nodes:\n                node.fuzz(parent, grammar, 0, in_message)", "            if node.distance_to_completion >= max_nodes:\n                if max_nodes < -50:\n                    continue\n                node.fuzz(parent, grammar, 0, in_message)", "R01-c"),
+    M("repair-parses-under-start", _CMP, "        elif suggested_tree := grammar.parse(self._source, start=symbol):", "        elif suggested_tree := grammar.parse(self._source, start=individual.symbol):", "R01-d"),
+    M("crossover-different-symbols", _CX, "        nodes2 = parent2.find_all_nodes(symbol)\n", "        nodes2 = parent2.find_all_nodes(random.choice(list(common_symbols)))\n", "R01-d"),
+]
+TWINS = [
+    M("twin-guard-reordered", _T, "            current_path in path_to_replacement\n            and self.symbol == path_to_replacement[current_path].symbol\n            and not self.read_only\n",
+      "            current_path in path_to_replacement\n            and not self.read_only\n            and self.symbol == path_to_replacement[current_path].symbol\n", None),
+    M("twin-rep-goal-comment", _R, "        rep_goal = random.randint(self.min, self.max)\n", "        # draw the number of repetitions\n        rep_goal = random.randint(self.min, self.max)\n", None),
+]
